@@ -45,6 +45,9 @@ def gen(rng, tier):
     for ch in chars:
         for pat in ("0x%s1", "0x1%s", "0x%s", "0xab%sc", "0xab%s"):
             cases.append(Case("cli.prefix_parse " + hx(pat % ch), tags=("prefix-parse",), runner="cli", meta={}, nontrivial=True))
+    from vlib.core import perturb
+    for v in perturb("0xab", "0x") + perturb("0xA", "0x"):
+        cases.append(Case("cli.prefix_parse " + hx(v), tags=("prefix-parse", "perturbed"), runner="cli", meta={}, nontrivial=True))
     for t in ["", "0", "x", "0x", "0X1", "00x1", "0x0x1", " 0x1", "0x 1", "0x+1", "0x-1", "0x1+", "0x+a1", "0xab+c", "1", "0x" + "ab" * 20, "0x" + "ab" * 21, "0x" + "a" * 41, "0x" + "F" * 40]:
         cases.append(Case("cli.prefix_parse " + hx(t), tags=("prefix-parse",), runner="cli", meta={}, nontrivial=True))
     cases.append(Case("cli.new_vanity %s %s - default %s" % (hx("13"), hx("0x1"), stream(rng, 3, 20)), tags=("model", "bad-length"), runner="cli", meta={"threads": 0}))
